@@ -72,7 +72,8 @@ def gen_world(rng, max_files=3, allow_include=True, nprobes=(3, 10), plain_prefi
         hosts = [f for f in allf if f.name not in plain] or allf
     for _ in range(nprobe):
         f = rng.choice(hosts)
-        f.items.append(("probe", None))
+        # a quarter of the probes stand in a '.repeat' block: the same text compiled 2-4 times, each pass at its own address
+        f.items.append(("probe", None, rng.randint(2, 4) if rng.random() < 0.25 else 1))
     # shuffle every file's items (includes stay where the shuffle puts them)
     for f in allf:
         rng.shuffle(f.items)
@@ -91,8 +92,8 @@ def gen_world(rng, max_files=3, allow_include=True, nprobes=(3, 10), plain_prefi
             elif it[0] == "include":
                 a = walk(it[1], a)
             elif it[0] == "probe":
-                probe_slots.append((f, i, a))
-                a += PROBE_SIZE
+                probe_slots.append((f, i, a, it[2]))
+                a += PROBE_SIZE * it[2]
         return a
     a = base
     for f in files:
@@ -103,22 +104,30 @@ def gen_world(rng, max_files=3, allow_include=True, nprobes=(3, 10), plain_prefi
     exported = set()
     file_of = dict(labels)
     probes = []
-    for f, i, pa in probe_slots:
+    for f, i, pa, reps in probe_slots:
         tmpl = rng.choice(TEMPLATES)
         t1 = rng.choice(labels)
         t2 = rng.choice(labels)
         if tmpl[0] == "branch":
-            near = [(nm, ff) for nm, ff in labels if -256 <= addr[nm] - (pa + 2) <= 254]
+            near = [(nm, ff) for nm, ff in labels if all(-256 <= addr[nm] - (pa + PROBE_SIZE * k + 2) <= 254 for k in range(reps))]
             if not near:
                 tmpl = rng.choice([t for t in TEMPLATES if t[0] != "branch"])
             else:
                 t1 = rng.choice(near)
-        p = _make_probe(rng, tmpl, pa, t1[0], t2[0], addr)
-        for nm in p.pop("uses"):
+        state = rng.getstate()
+        passes = []
+        for k in range(reps):
+            rng.setstate(state)          # every pass is the same text
+            passes.append(_make_probe(rng, tmpl, pa + PROBE_SIZE * k, t1[0], t2[0], addr))
+        for nm in passes[0]["uses"]:
             if file_of[nm] is not f:
                 exported.add(nm)
-        f.items[i] = ("probe", p)
-        probes.append(p)
+        for q in passes:
+            q.pop("uses")
+            q["repeat"] = reps
+        assert all(q["src"] == passes[0]["src"] for q in passes)
+        f.items[i] = ("probe", passes[0], reps)
+        probes += passes
     # some labels are exported although nobody needs it
     for nm, _ in labels:
         if rng.random() < 0.15:
@@ -133,8 +142,10 @@ def gen_world(rng, max_files=3, allow_include=True, nprobes=(3, 10), plain_prefi
                 lines.append(it[1])
             elif it[0] == "include":
                 lines.append('.include "%s"' % it[1].name)
-            else:
+            elif it[2] == 1:
                 lines.append(it[1]["src"])
+            else:
+                lines.append(".repeat %d {\n%s\n}" % (it[2], it[1]["src"]))
         texts.append((f.name, "\n".join(lines) + "\n"))
     return {"files": texts, "main": nmain, "base": base, "labels": addr, "probes": probes}
 
